@@ -116,8 +116,7 @@ def check(rep, ctx):
                     q, issues = timeflow.write_side(wd["conv"], bits, kind)
                     fn = wd.get("_codec", "?")
                     if q is None:
-                        rep.check(R_D, False, construct=fn, stmt=timeflow.show(wd["conv"]),
-                                  message=f"time conversion not understood: {timeflow.show(wd['conv'])}", instance=construct)
+                        rep.limit(f"{fn}: time conversion not understood: {timeflow.show(wd['conv'])[:160]}")
                     for rule, msg, op in issues:
                         if rule in ("T-float64", "T-trunc", "T-epoch"):
                             rep.check(R_D, False, construct=fn, stmt=timeflow.show(wd["conv"]), message=f"{rule}: {msg}",
